@@ -497,6 +497,7 @@ func c09(r *core.Run) {
 		}
 	}
 	r.Floor("C09.E1", "callback invocations in the manifest walker", n, 2)
+	c09Pyramid(r)
 }
 
 // errReturnedGeneric: on the err != nil edge of call c every reachable return returns
